@@ -8,7 +8,6 @@ package main
 import (
 	"fmt"
 	"github.com/tinode/chat/server/zzverif/memdb"
-	"github.com/tinode/chat/server/zzverif/vatomic"
 	"os"
 	"sort"
 	"strings"
@@ -567,7 +566,7 @@ func TestVerifC10PresAtLoad(t *testing.T) {
 	shard, shards := vfev.Shard()
 	nb := 0
 	for _, sel := range []bool{false, true} { // which ready select case a run loop prefers: first / last in source order
-		for _, dir := range []string{"partner-comes-online", "partner-goes-offline", "partner-comes-online, plain attach"} {
+		for _, dir := range []string{"partner-comes-online", "partner-goes-offline", "partner-comes-online:plain-attach"} {
 			events := 0
 			for k := 0; k <= events+1; k++ {
 				nb++
@@ -592,6 +591,9 @@ func TestVerifC10PresAtLoad(t *testing.T) {
 						if injected {
 							return
 						}
+						if vsched.CurrentID() == vfMainG {
+							return // the harness's own goroutine: not a position inside the first request
+						}
 						n++
 						if n == k {
 							injected = true
@@ -613,10 +615,15 @@ func TestVerifC10PresAtLoad(t *testing.T) {
 						event("before store call " + name)
 					}
 					memdb.OnReturn = func(name string) { event("after store call " + name) }
-					vatomic.OnOp = func(write bool) { event("atomic operation") }
-					restore := func() { memdb.OnCall, memdb.OnReturn, vatomic.OnOp = prev, nil, nil }
+					vsched.OnPoint = func(kind string) { event(kind) }
+					restore := func() { memdb.OnCall, memdb.OnReturn, vsched.OnPoint = prev, nil, nil }
 					vsched.OnKill(restore)
-					p.apply(vfPresOp{"b1:sub me", "b1", "subme"})
+					if strings.HasSuffix(dir, "plain-attach") {
+						// without {get sub}: b learns about a from {pres} alone
+						p.cl["b1"].Req(`{"sub":{"id":"$ID","topic":"me"}}`)
+					} else {
+						p.apply(vfPresOp{"b1:sub me", "b1", "subme"})
+					}
 					restore()
 					if k == 0 {
 						events = n
@@ -651,6 +658,19 @@ func TestVerifC10PresAtLoad(t *testing.T) {
 							if pr := f.Msg.Pres; pr != nil && pr.Topic == "me" && pr.Src == p.users[subj].id() && (pr.What == "on" || pr.What == "off") {
 								believes, seen = pr.What == "on", true
 							}
+						}
+						if os.Getenv("VERIF_DEBUG") != "" && obs == "b1" {
+							var fr []string
+							for _, f := range c.frames {
+								if f.Msg.Pres != nil || f.Msg.Meta != nil {
+									fr = append(fr, vfTrunc(vfFrameString(f), 300))
+								}
+							}
+							ps := ""
+							if mt := vfTopic(p.meOf("b")); mt != nil {
+								ps = fmt.Sprint(mt.perSubs)
+							}
+							fmt.Printf("  debug: %s sel=%v k=%d where=%s b1 believes=%v truth=%v pres=%v perSubs=%s\n", dir, sel, k, where, believes, truth, fr, ps)
 						}
 						if believes != truth {
 							bad = append(bad, fmt.Sprintf("%s believes %s online=%v, truth %v", obs, subj, believes, truth))
